@@ -43,17 +43,19 @@ type scenSpec struct {
 }
 
 type propSpec struct {
-	ID          string
-	Scenarios   []scenSpec
-	Level       string
-	QuickSec    int
-	ThoroughSec int
-	Rule        string // how cases are generated and what makes one non-trivial
-	Assumptions []string
-	LevelText   string
-	Note        string
-	Technique   string
-	DesignRef   string
+	ID           string
+	Scenarios    []scenSpec
+	Level        string
+	QuickSec     int // wall-clock cap of the search phase (the run counts below normally end it earlier)
+	ThoroughSec  int
+	QuickRuns    int // runs 0..N-1 of the seed: with a fixed VERIF_SEED the explored set is a function of the tree alone
+	ThoroughRuns int
+	Rule         string // how cases are generated and what makes one non-trivial
+	Assumptions  []string
+	LevelText    string
+	Note         string
+	Technique    string
+	DesignRef    string
 }
 
 var commonAssumptions = []string{
@@ -130,6 +132,20 @@ func init() {
 		Scenarios: []scenSpec{{Name: "fuzz", Share: 1}},
 		LevelText: "real sessions (client and server role, handshake and established phase) whose control connection receives generated wire-format events mutated by truncation, inconsistent lengths, bad magic/version/type, wrong direction or phase, duplication and garbage, delivered under seeded fragmentations and schedules; oracle: no panic or memory fault in any goroutine of the victim process, handshake returns within InitializeTimeout + slack, another session of the same process still completes a round trip, and a well-formed byte string has the same observable effect however it is cut into reads (differential between two victims in the same run).",
 		Rule:      "seeded generation of event sequences from the wire format + mutation operators x fragmentation patterns (1 byte .. all at once) x kernel read fragmentation x schedules; non-trivial = non-empty input and more than 50 context switches; distinct = distinct schedule signatures among non-trivial runs"})
+	// Both tiers explore a fixed number of runs (run i of master seed s is a pure function of (s, i) and the tree), so
+	// that a verdict for a given VERIF_SEED does not depend on the speed or load of the machine; the numbers are what
+	// an idle 16-core sandbox does in about 45 s (quick) and 6-8 min (thorough). QuickSec/ThoroughSec only cap the
+	// wall clock: a slower machine explores a prefix and says so.
+	for id, n := range map[string][2]int{
+		"C01": {120000, 960000}, "C02": {100000, 800000}, "C04": {120000, 960000},
+		"C05": {4000, 32000}, "C06": {4000, 32000}, "C07": {3000, 24000}, "C08": {3000, 24000}, "C09": {4000, 32000},
+		"C10": {2500, 20000}, "C11": {2000, 16000}, "C20": {3000, 24000},
+		"C12": {8000, 2000}, "C13": {3000, 24000}, "C14": {6000, 1500},
+		"C15": {8000, 64000}, "C16": {6000, 48000}, "C17": {6000, 48000}, "C18": {5000, 40000}, "C19": {7000, 56000},
+	} {
+		props[id].QuickRuns, props[id].ThoroughRuns = n[0], n[1]
+		props[id].QuickSec, props[id].ThoroughSec = 300, 3600
+	}
 }
 
 type runRecord struct {
@@ -361,7 +377,7 @@ type workerResult struct {
 	err  error
 }
 
-func runWorkers(dir string, scn scenSpec, prop, tier string, master uint64, budget time.Duration, workers int) ([]runRecord, error) {
+func runWorkers(dir string, scn scenSpec, prop, tier string, master uint64, budget time.Duration, workers int, nruns int) ([]runRecord, error) {
 	opts := map[string]string{"property": prop}
 	for k, v := range scn.Opts {
 		opts[k] = v
@@ -374,12 +390,22 @@ func runWorkers(dir string, scn scenSpec, prop, tier string, master uint64, budg
 		go func(i int) {
 			defer wg.Done()
 			outPath := filepath.Join(dir, fmt.Sprintf("out-%s-%d.jsonl", scn.Name, i))
+			count := 1000000000 // time-bounded
+			if nruns > 0 {
+				count = 0
+				if i < nruns {
+					count = (nruns - i + workers - 1) / workers
+				}
+			}
+			if count == 0 {
+				return
+			}
 			cmd := exec.Command(filepath.Join(dir, "sim.test"), "-test.run", "^TestSim$", "-test.timeout", "0", "-test.cpu", "2")
 			cmd.Dir = dir
 			cmd.Env = append(os.Environ(),
 				"VSIM_MODE=search", "VSIM_SCENARIO="+scn.Name, "VSIM_TIER="+tier,
 				"VSIM_SEED="+strconv.FormatUint(master, 10),
-				"VSIM_START="+strconv.Itoa(i), "VSIM_STRIDE="+strconv.Itoa(workers), "VSIM_COUNT=1000000000",
+				"VSIM_START="+strconv.Itoa(i), "VSIM_STRIDE="+strconv.Itoa(workers), "VSIM_COUNT="+strconv.Itoa(count),
 				"VSIM_BUDGET_MS="+strconv.FormatInt(budget.Milliseconds(), 10),
 				"VSIM_OUT="+outPath, "VSIM_OPTS="+string(ob), "VSIM_MAX_VIOLATIONS=100000", "GOMAXPROCS=2")
 			var stderr strings.Builder
@@ -491,6 +517,15 @@ func matchKnown(known []knownFinding, prop string, f failure) *knownFinding {
 		}
 		ok := true
 		for dk, dv := range k.Discriminator {
+			if dk == "panic_kind" {
+				// applies to panics only: the recorded races corrupt or unmap memory under a user (nil slice, stale
+				// index, quarantined mapping); a panic of any other kind (closed channel, nil map, negative
+				// WaitGroup, an explicit panic of the library ...) is not an instance, whatever the tags say
+				if f.Rule == "panic" && panicKind(f.Msg) != dv {
+					ok = false
+				}
+				continue
+			}
 			if f.Tags[dk] != dv {
 				ok = false
 			}
@@ -524,7 +559,8 @@ func cmdCheck(prop string, args []string) int {
 	fl := flag.NewFlagSet("check", flag.ExitOnError)
 	tier := fl.String("tier", "", "quick|thorough")
 	seedFlag := fl.Int64("seed", -1, "master seed (default VERIF_SEED or 1)")
-	secs := fl.Int("seconds", 0, "override the search budget in seconds")
+	secs := fl.Int("seconds", 0, "time-bounded search of this many seconds instead of the tier's fixed number of runs (soaks, development)")
+	runsFlag := fl.Int("runs", -1, "override the tier's number of runs (0 = time-bounded)")
 	keep := fl.Bool("keep", false, "keep the scratch directory")
 	workersFlag := fl.Int("workers", 0, "worker processes (default: number of CPUs)")
 	_ = fl.Parse(args)
@@ -547,8 +583,16 @@ func cmdCheck(prop string, args []string) int {
 	if *tier == "thorough" {
 		budgetSec = spec.ThoroughSec
 	}
+	planned := spec.QuickRuns
+	if *tier == "thorough" {
+		planned = spec.ThoroughRuns
+	}
 	if *secs > 0 {
 		budgetSec = *secs
+		planned = 0
+	}
+	if *runsFlag >= 0 {
+		planned = *runsFlag
 	}
 	workers := *workersFlag
 	if workers <= 0 {
@@ -575,16 +619,33 @@ func cmdCheck(prop string, args []string) int {
 		totalShare += s.Share
 	}
 	var all []runRecord
+	complete := true // every planned run was executed before the wall-clock cap
 	perScn := map[string]map[string]interface{}{}
 	for _, scn := range spec.Scenarios {
 		b := time.Duration(float64(budgetSec) * float64(scn.Share) / float64(totalShare) * float64(time.Second))
+		n := 0
+		if planned > 0 {
+			n = planned * scn.Share / totalShare
+			if n < 1 {
+				n = 1
+			}
+		}
 		t0 := time.Now()
-		recs, err := runWorkers(dir, scn, prop, *tier, uint64(master), b, workers)
+		recs, err := runWorkers(dir, scn, prop, *tier, uint64(master), b, workers, n)
 		if err != nil {
 			fmt.Fprintf(os.Stderr, "vcheck: WORKER FAILURE (exit 2, not a verdict): %v\n", err)
 			return 2
 		}
-		perScn[scn.Name] = map[string]interface{}{"runs": len(recs), "wall_s": time.Since(t0).Seconds()}
+		done := 0
+		for _, r := range recs {
+			if !r.Variant {
+				done++
+			}
+		}
+		if n > 0 && done < n {
+			complete = false
+		}
+		perScn[scn.Name] = map[string]interface{}{"runs": len(recs), "planned_runs": n, "wall_s": time.Since(t0).Seconds()}
 		all = append(all, recs...)
 	}
 
@@ -745,6 +806,8 @@ func cmdCheck(prop string, args []string) int {
 		"violation_samples":            violSamples,
 		"tree":                         tree,
 		"workers":                      workers,
+		"planned_runs":                 planned,
+		"planned_runs_completed":       complete,
 		"build_s":                      buildS,
 		"exhaustive":                   false,
 	}
@@ -759,9 +822,27 @@ func cmdCheck(prop string, args []string) int {
 	if err := os.WriteFile(filepath.Join(verifDir, "evidence", prop+".json"), eb, 0o644); err != nil {
 		die(2, "write evidence: %v", err)
 	}
-	fmt.Printf("%s %s: runs=%d nontrivial-distinct=%d violations=%d known=%v wall=%.1fs (build %.1fs) seed=%d tree=%s\n",
-		prop, *tier, evals, len(sigs), nViol, knownSeen, wall, buildS, master, tree)
+	plan := "time-bounded"
+	if planned > 0 {
+		plan = fmt.Sprintf("planned=%d", planned)
+		if !complete {
+			plan += " (cut short by the wall-clock cap)"
+		}
+	}
+	fmt.Printf("%s %s: runs=%d %s nontrivial-distinct=%d violations=%d known=%v wall=%.1fs (build %.1fs) seed=%d tree=%s\n",
+		prop, *tier, evals, plan, len(sigs), nViol, knownSeen, wall, buildS, master, tree)
 	return exit
+}
+
+// panicKind classifies a panic message: "memory" for the runtime errors that a use of recycled or unmapped memory
+// produces, "other" for everything else.
+func panicKind(msg string) string {
+	for _, m := range []string{"nil pointer dereference", "invalid memory address", "index out of range", "slice bounds out of range", "unexpected fault address"} {
+		if strings.Contains(msg, m) {
+			return "memory"
+		}
+	}
+	return "other"
 }
 
 // panicSite returns the innermost function of the package under test on a panic stack.
